@@ -63,6 +63,11 @@ Section ExecPlain.
 
   (* tokens of plain text that no language treats as active *)
   Definition etok (t : tok) : Prop := ptok P okc t.
+  (* the same without regard to pinning: text generated from a macro body is
+     pinned to the call *)
+  Definition gtok (t : tok) : Prop := ptok P okc (mk (tk t) (pos t) (txt t) false).
+  Lemma etok_gtok t : etok t -> gtok t.
+  Proof. intros [_ Hk]. split; [reflexivity | exact Hk]. Qed.
 
   Lemma assoc_in {A} k (l : list (str * A)) v : assoc k l = Some v -> exists k', In (k', v) l.
   Proof.
@@ -72,12 +77,12 @@ Section ExecPlain.
     - destruct (IH H) as [k2 Hk]. exists k2. right. exact Hk.
   Qed.
 
-  Lemma etok_not_active st t :
-    etok t ->
+  Lemma gtok_not_active st t :
+    gtok t ->
     match cur_settings T st with
     | Some s => mem_str (txt t) (ls_active s) | None => false end = false.
   Proof.
-    intros [Hp Hk]. destruct (cur_settings T st) as [s|] eqn:Ec; [|reflexivity].
+    intros [Hp Hk]. cbn [tk txt pos pfix mk] in Hk. destruct (cur_settings T st) as [s|] eqn:Ec; [|reflexivity].
     unfold cur_settings in Ec. apply assoc_in in Ec. destruct Ec as [k Hin].
     destruct (mem_str (txt t) (ls_active s)) eqn:Em; [|reflexivity]. exfalso.
     destruct tab_facts as (_ & _ & _ & _ & _ & _ & _ & Hact).
@@ -95,12 +100,12 @@ Section ExecPlain.
 
   (* the text of such a token is none of the strings the main loop tests for,
      each of which starts with $, backslash or a brace *)
-  Lemma etok_txt_is t a r :
-    etok t -> In a [36; 92; 123; 125]%N ->
+  Lemma gtok_txt_is t a r :
+    gtok t -> In a [36; 92; 123; 125]%N ->
     (a = 92%N -> r <> []) ->
     txt_is t (a :: r) = false.
   Proof.
-    intros [Hp Hk] Ha Hr. unfold txt_is.
+    intros [Hp Hk] Ha Hr. cbn [tk txt pos pfix mk] in Hk. unfold txt_is.
     destruct tab_facts as (S36 & S123 & S125 & N36 & N92 & N123 & N125 & _).
     assert (Hsp : sp_is_space P a = false).
     { simpl in Ha. destruct Ha as [E|[E|[E|[E|[]]]]]; subst a; assumption. }
@@ -120,31 +125,46 @@ Section ExecPlain.
   Qed.
 
   (* one turn of the main loop: the token goes to the output as it is *)
-  Lemma step_seq_etok rec fuel st t b env_stop rout :
-    etok t ->
+  Lemma step_seq_gtok rec fuel st t b env_stop rout :
+    gtok t ->
     step_seq T rd rec fuel st (t :: b) env_stop rout =
     rec (TSeq b env_stop (t :: rout)) st.
   Proof.
     intros Ht. unfold step_seq.
     assert (H1 : txt_is t (s2l "$") = false)
-      by (apply etok_txt_is; [exact Ht | simpl; tauto | discriminate]).
+      by (apply gtok_txt_is; [exact Ht | simpl; tauto | discriminate]).
     assert (H2 : txt_is t (s2l "\(") = false)
-      by (apply etok_txt_is; [exact Ht | simpl; tauto | discriminate]).
+      by (apply gtok_txt_is; [exact Ht | simpl; tauto | discriminate]).
     assert (H3 : txt_is t (s2l "$$") = false)
-      by (apply etok_txt_is; [exact Ht | simpl; tauto | discriminate]).
+      by (apply gtok_txt_is; [exact Ht | simpl; tauto | discriminate]).
     assert (H4 : txt_is t (s2l "\[") = false)
-      by (apply etok_txt_is; [exact Ht | simpl; tauto | discriminate]).
+      by (apply gtok_txt_is; [exact Ht | simpl; tauto | discriminate]).
     assert (H5 : txt_is t (s2l "\\") = false)
-      by (apply etok_txt_is; [exact Ht | simpl; tauto | discriminate]).
+      by (apply gtok_txt_is; [exact Ht | simpl; tauto | discriminate]).
     assert (H6 : txt_is t s_lbrace = false)
-      by (apply etok_txt_is; [exact Ht | simpl; tauto | discriminate]).
+      by (apply gtok_txt_is; [exact Ht | simpl; tauto | discriminate]).
     assert (H7 : txt_is t s_rbrace = false)
-      by (apply etok_txt_is; [exact Ht | simpl; tauto | discriminate]).
-    pose proof (etok_not_active st t Ht) as Ha.
+      by (apply gtok_txt_is; [exact Ht | simpl; tauto | discriminate]).
+    pose proof (gtok_not_active st t Ht) as Ha.
     rewrite H1, H2, H3, H4, H5, H6, H7. cbn [orb].
-    destruct Ht as [Hp Hk].
+    destruct Ht as [Hp Hk]. cbn [tk txt pos pfix mk] in Hk.
     destruct (tk t); try contradiction; rewrite Ha; reflexivity.
   Qed.
+  Lemma etok_not_active st t :
+    etok t ->
+    match cur_settings T st with
+    | Some s => mem_str (txt t) (ls_active s) | None => false end = false.
+  Proof. intros H. apply gtok_not_active, etok_gtok, H. Qed.
+  Lemma etok_txt_is t a r :
+    etok t -> In a [36; 92; 123; 125]%N ->
+    (a = 92%N -> r <> []) ->
+    txt_is t (a :: r) = false.
+  Proof. intros H. apply gtok_txt_is, etok_gtok, H. Qed.
+  Lemma step_seq_etok rec fuel st t b env_stop rout :
+    etok t ->
+    step_seq T rd rec fuel st (t :: b) env_stop rout =
+    rec (TSeq b env_stop (t :: rout)) st.
+  Proof. intros H. apply step_seq_gtok, etok_gtok, H. Qed.
 
   Lemma etok_keep t : etok t -> is_action t = false /\ keep_out t = true.
   Proof.
